@@ -23,7 +23,7 @@ RULE = (
     "of message types the sweep pushed, step class)."
 )
 ASSUMPTIONS = ["SQLite backend", "confluent workflow family (outcome independent of delivery order), so runs whose schedule diverges after the injected sweep are still comparable"]
-MIN_OBS = {"sweeps_injected": {"quick": 1500, "thorough": 20000}, "sweeps_that_pushed_messages": {"quick": 120, "thorough": 1500}, "double_recovery_snapshots": {"quick": 300, "thorough": 5000}}
+MIN_OBS = {"sweeps_injected": {"quick": 1500, "thorough": 20000}, "sweeps_that_pushed_messages": {"quick": 120, "thorough": 1500}, "double_recovery_snapshots": {"quick": 300, "thorough": 3500}}
 TIMEOUT = {"quick": 800, "thorough": 3400}
 
 
